@@ -333,7 +333,12 @@ class Calls:
                 rr = getattr(c, 'returns_ref', None) or c.extra_env.get('__returns_ref__')
                 if rr is None:
                     raise SpecError('contract %s returns a reference: needs returns_ref' % c.key)
-                result = RefVal(this_path if rr == 'this' else names[rr])
+                if rr == 'fresh':
+                    # a reference into state the contract keeps abstract: an unknown object of the referenced type
+                    fv = fresh(rt[1], ex.fresh_name('ret_' + c.name.split('::')[-1]))
+                    result = RefVal(ex.new_root('ref_' + c.name.split('::')[-1], fv))
+                else:
+                    result = RefVal(this_path if rr == 'this' else names[rr])
             elif rt[0] == 'void':
                 result = None
             elif c.value is not None:
